@@ -131,6 +131,14 @@ PARSING_QUERIES = [
     ('group-by-in-update', 'update a1 = "x" group by a1'),
     ('two-joins', 'select a1 join b on a1 == b1 join b on a2 == b2'),
     ('distinct-aggregate', 'select distinct COUNT(*)'),
+    # text in front of the leading keyword that holds no other clause keyword
+    ('typo-before-select', 'selec a1, a2 select a2'),
+    ('prompt-before-select', 'rbql> select a1'),
+    ('top-before-select', 'top 1 select a1'),
+    ('number-before-select', '1 select a1, a2'),
+    ('set-before-update', 'set a1 = "x" update a2 = "y"'),
+    ('assignment-before-update', 'a3 = "zzz" update a1 = "x"'),
+    ('paren-before-select', '( select a1 )'),
 ]
 NEEDS_HEADER = {'unknown-update-field', 'unknown-except-field', 'unknown-join-field'}
 NO_HEADER = {'star-and-alias-without-header'}
